@@ -195,10 +195,31 @@ def _coerce(a, b):
     if not is_sym(b):
         b = rv(b)
     if z3.is_int(a) and z3.is_real(b):
-        a = z3.ToReal(a)
+        a = z3.RealVal(a.as_long()) if z3.is_int_value(a) else z3.ToReal(a)
     elif z3.is_real(a) and z3.is_int(b):
-        b = z3.ToReal(b)
+        b = z3.RealVal(b.as_long()) if z3.is_int_value(b) else z3.ToReal(b)
     return a, b
+
+
+def s_is_integer(x):
+    """integrality predicate, pushed through if-then-else / ToReal so that z3 sees it structurally"""
+    if not is_sym(x):
+        return float(x) == int(x)
+    if z3.is_int(x) or z3.is_bool(x):
+        return True
+    if z3.is_rational_value(x):
+        return x.denominator_as_long() == 1
+    k = x.decl().kind()
+    ch = x.children()
+    if k == z3.Z3_OP_TO_REAL:
+        return True
+    if k == z3.Z3_OP_ITE:
+        return s_and(s_or(s_not(ch[0]), s_is_integer(ch[1])), s_or(ch[0], s_is_integer(ch[2])))
+    if k in (z3.Z3_OP_ADD, z3.Z3_OP_SUB, z3.Z3_OP_MUL, z3.Z3_OP_UMINUS):
+        parts = [s_is_integer(c) for c in ch]
+        if all(p is True for p in parts):
+            return True
+    return z3.IsInt(x)
 
 
 def _isint(v):
@@ -423,21 +444,27 @@ def as_bool(v):
     return bool(v)
 
 
-_RND = z3.Function('round_half_even', z3.RealSort(), z3.IntSort())
-
-
 def s_round(a):
-    """round-half-to-even (python round(), torch.round) as an uninterpreted function with its defining axiom
-    instantiated at the argument"""
+    """round-half-to-even (python round(), torch.round): a fresh integer per distinct argument term with the defining axiom
+    (|n - a| <= 1/2, ties to even) and the pairwise monotonicity instances against the other roundings on the path.
+    No uninterpreted function: keeps the obligations inside (non-linear) arithmetic."""
     if not is_sym(a):
         return round(a)
     if z3.is_int(a):
         return a
     a = to_real(a)
-    n = _RND(a)
+    p = PATH()
+    cache = p.__dict__.setdefault('round_cache', {})
+    key = a.get_id()
+    if key in cache:
+        return cache[key][1]
+    n = p.fresh('rnd', z3.IntSort())
     d = z3.ToReal(n) - a
     half = z3.RealVal('1/2')
-    PATH().add_side(z3.And(d <= half, d >= -half, z3.Implies(z3.Or(d == half, d == -half), n % 2 == 0)))
+    p.add_side(z3.And(d <= half, d >= -half, z3.Implies(z3.Or(d == half, d == -half), n % 2 == 0)))
+    for (a2, n2) in cache.values():
+        p.add_side(z3.And(z3.Implies(a <= a2, n <= n2), z3.Implies(a2 <= a, n2 <= n)))
+    cache[key] = (a, n)
     return n
 
 
